@@ -161,7 +161,7 @@ def sec_run(ctx, rng, case):
             keep.append(s)
         steps = u + keep
     else:
-        steps = P.gen_meas_program(rng, dims, max_digits=7, allow_pauli=True)
+        steps = P.gen_meas_program(rng, dims, max_digits=7, allow_pauli=True, allow_multi_cond=True)
     qubits = P.make_qubits(rng, dims)
     layout = ["greedy", "serial"][int(rng.integers(2))]
     circuit = P.to_circuit(steps, qubits, rng, layout)
